@@ -114,6 +114,7 @@ fn main() {
         "C16" => {
             fmrun::c16_run(&opts, &mut out);
             rrun::c16_run(&opts, &mut out);
+            scen_codec::serde_visitor_protocol(&mut out, "C16", &scen_codec::sample_proofs(&opts));
             out.case("proof shapes: rounds in {1..13, 40, 70, 2^10}, d1 length = / != degree, identity or undecodable point at chosen slots; statements (bits, agg, cap, degree) incl. seeded; 3 modes; batch length mismatches; random decoder inputs; both groups; build: release + debug-assertions + overflow-checks".into());
         },
         "C18" => scen_threads::c18(&opts, &mut out),
